@@ -229,6 +229,10 @@ pub fn stop_continue_slice(ctx: &Ctx, prop: &'static str) {
         "( sig TSTP; probe -s 6 k2 ); probe k3 \"$?\"\n",
         "if ( probe -s 0 k1; sig STOP; probe -s 2 k2 ); then probe k3 then; else probe k3 else; fi\n",
         "( probe k1; sig STOP; sig STOP; probe -s 9 k2 ) && probe k3 yes || probe k3 \"$?\"\n",
+        // the stopped command is the one that reads the next line of the script
+        "( probe k1; sig STOP; read x; probe -s 4 k2 \"$x\" )\nprobe k9 data-line-run-as-a-command\nprobe k3 \"$?\"\n",
+        // the parent's state around the stopped subshell
+        "v=1; ( v=2; sig TSTP; v=3; probe -s 5 k2 \"$v\" ); probe k3 \"$?\" \"$v\"\n",
     ];
     let scripts = &scripts;
     ctx.par_for(
